@@ -16,6 +16,7 @@ import (
 	"sync/atomic"
 	"time"
 
+	gopfcp "github.com/wmnsk/go-pfcp"
 	"github.com/wmnsk/go-pfcp/ie"
 	"github.com/wmnsk/go-pfcp/message"
 
@@ -308,6 +309,7 @@ func newCtlEnv(c *ctx, netn int, peerIDs []int) *ctlEnv {
 	// one CPU per harness process: keeps loopback delivery in send order (see pin.go)
 	pinToCPU(netn % runtime.NumCPU())
 	e := &ctlEnv{c: c, net: netn, peers: map[int]*net.UDPConn{}}
+	gopfcp.DisableLogging()
 	logger.Log.SetOutput(io.Discard)
 	logger.Log.ExitFunc = func(int) { atomic.StoreInt32(&e.fatal, 1) }
 	for _, k := range append(peerIDs, fencePeer) {
@@ -836,9 +838,7 @@ func (e *ctlEnv) exec(ev *event) (sends map[int][]string, rawSends map[int][][]b
 	switch ev.typ {
 	case "recv":
 		b := e.buildDatagram(ev)
-		if len(b) > 0 { // an empty datagram is the receiver's own stop marker: never sent
-			e.peers[ev.peer].WriteToUDP(b, e.srvAddr)
-		}
+		e.peers[ev.peer].WriteToUDP(b, e.srvAddr) // also when b is empty: a zero-length datagram is ignored by the UPF
 	case "report":
 		var reps []report.Report
 		for _, it := range ev.items {
